@@ -693,6 +693,7 @@ fn clean_case(out: &mut Out, rng: &mut Rng, long: bool) {
     };
     let cfg = cfg_default(&to, *rng.pick(&[0u64, 5000]), 1);
     let mut c = Case::begin(out, &cfg, t0);
+    c.out.set_desc("clean".into());
     c.sess.clean = true;
     c.sess.ordered_ids = true;
     let mut arrived: Vec<Vec<bool>> = vec![vec![]; nodes];
@@ -744,6 +745,7 @@ fn clean_case(out: &mut Out, rng: &mut Rng, long: bool) {
 fn faulty_case(out: &mut Out, rng: &mut Rng) {
     let (cfg, to) = cfg_random(rng);
     let mut c = Case::begin(out, &cfg, 1_000_000 + rng.below(1000));
+    c.out.set_desc("ordered".into());
     c.sess.ordered_ids = true;
     let nodes = rng.range(1, 3);
     let mut next_id = 0u64;
@@ -1037,12 +1039,17 @@ pub fn run(args: &Args, out: &mut Out) -> &'static str {
     RULE
 }
 
-pub fn replay(_desc: &str, lines: &[String], out: &mut Out) {
+pub fn replay(desc: &str, lines: &[String], out: &mut Out) {
     let mut sess: Option<Sess> = None;
     for l in lines {
         if l.starts_with("host new ") {
-            sess = Some(Sess::new(l));
+            let mut s = Sess::new(l);
+            // "clean": the history is fault-free and every gap closes before the timeout
+            s.clean = desc.starts_with("clean");
+            s.ordered_ids = desc.starts_with("clean") || desc.starts_with("ordered");
+            sess = Some(s);
             out.begin_case(l, "ok");
+            out.set_desc(desc.to_string());
         } else if let Some(s) = sess.as_mut() {
             let a = s.exec(l, out);
             out.line(l, &a);
